@@ -45,7 +45,7 @@ func runPage(c *hx.Ctx, k kase, pg Page) {
 
 func Run(c *hx.Ctx) {
 	defer flushChecks(c)
-	c.Rep.Rule = "synthetic pages (integer coordinates over a denominator 1, 2 or 4): 1-4 columns of ragged or justified lines of unique tokens, headings of larger size, lists, single-word lines, short last lines, right-to-left runs, spanning titles, character-level fragmentation, exact and shifted duplicate layers, an outlier word, a zero-width glyph at the right edge, narrow marks in the left margin, a one-character line, boxes higher than the font size, list markers and numbers as direction-neutral fragments, visual / row-major / shuffled stream order, inverted Y, scaled coordinates; each page goes through the layout detectors directly and, rendered to PDF, through the public API in every text mode; plus bidi pages: the same pages whose columns also carry mixed-direction lines of 2-8 fragments (a right-to-left line of Hebrew or Arabic words, or a left-to-right line, with separate direction-neutral fragments - numbers, punctuation marks, currency signs, short compounds like 12:30 or $150 - and embedded words of the other direction in the minority; written in visual left-to-right, logical or random stream order, also character by character). plus bound pages for the resource bounds of PreserveLayout (at most 100 newlines per vertical gap, target column at most 200) and of the column histogram (page width below 5242880 = 2^20 buckets): edge pages 1200 wide set in size 10 whose lines ask for 1, 2, 99, 100, 101, 102, 150, 1000, 10^10 and 95-106 newlines and for the columns 0, 1, 199, 200, 201, 202, 250, 2000, 10^10 and 195-206; pages with text at x or y = +-1e14, 4e18 and (direct API only) 1e30 / 1e300, on a sheet 2^-30 or 0 wide, set in a font of size 2^-30 or 0, lines without height; generated pages on sheets 5242875, 5242879.75, 5242880, 5242880.25, 5242885, 1e12 and 13107200 wide; the witness of the histogram repair (20000 fragments as wide as a sheet of 5242000 points; oracles only, 3-6 such fragments also through the model). Non-trivial = the page has fragments."
+	c.Rep.Rule = "synthetic pages (integer coordinates over a denominator 1, 2 or 4): 1-4 columns of ragged or justified lines of unique tokens, headings of larger size, lists, single-word lines, short last lines, right-to-left runs, spanning titles, character-level fragmentation, exact and shifted duplicate layers, an outlier word, a zero-width glyph at the right edge, narrow marks in the left margin, a one-character line, boxes higher than the font size, list markers and numbers as direction-neutral fragments, visual / row-major / shuffled stream order, inverted Y, scaled coordinates; each page goes through the layout detectors directly and, rendered to PDF, through the public API in every text mode; plus bidi pages: the same pages whose columns also carry mixed-direction lines of 2-8 fragments (a right-to-left line of Hebrew or Arabic words, or a left-to-right line, with separate direction-neutral fragments - numbers, punctuation marks, currency signs, short compounds like 12:30 or $150 - and embedded words of the other direction in the minority; written in visual left-to-right, logical or random stream order, also character by character). plus marks pages: standard and bidi pages in which characters that are neither white space nor printable - format characters (ZWNJ, ZWJ, soft hyphen, bidi marks and embedding controls, word joiner), private-use glyph codes of symbol fonts (U+F0B7 and others, also as the bullet of a list), C0/C1 control characters other than white space, unassigned code points and non-characters - stand at the start, inside or at the end of fragment texts or as fragments of their own. plus bound pages for the resource bounds of PreserveLayout (at most 100 newlines per vertical gap, target column at most 200) and of the column histogram (page width below 5242880 = 2^20 buckets): edge pages 1200 wide set in size 10 whose lines ask for 1, 2, 99, 100, 101, 102, 150, 1000, 10^10 and 95-106 newlines and for the columns 0, 1, 199, 200, 201, 202, 250, 2000, 10^10 and 195-206; pages with text at x or y = +-1e14, 4e18 and (direct API only) 1e30 / 1e300, on a sheet 2^-30 or 0 wide, set in a font of size 2^-30 or 0, lines without height; generated pages on sheets 5242875, 5242879.75, 5242880, 5242880.25, 5242885, 1e12 and 13107200 wide; the witness of the histogram repair (20000 fragments as wide as a sheet of 5242000 points; oracles only, 3-6 such fragments also through the model). Non-trivial = the page has fragments."
 	// bidi pages first, and among them first the ones small enough to travel in
 	// the replay file: a failure then shows its input
 	m := c.N(60, 600)
@@ -56,6 +56,24 @@ func Run(c *hx.Ctx) {
 				continue
 			}
 			k := mkCase(c, i, kindBidi, pg)
+			c.Current(k)
+			for _, t := range pg.Tags {
+				c.Count(t)
+			}
+			runPage(c, k, pg)
+			c.Case(fmt.Sprintf("%d/%d", c.Seed, i), len(pg.F) > 0)
+		}
+	}
+	// marks pages: standard and bidi pages with format, private-use, control and
+	// unassigned characters in their fragments (small ones first, as above)
+	mm := c.N(60, 600)
+	for pass := 0; pass < 2; pass++ {
+		for i := marksBase; i < marksBase+mm; i++ {
+			pg := genPageKind(c.Rng.Fork(uint64(i)), kindMarks)
+			if (len(pg.F) <= 60) != (pass == 0) {
+				continue
+			}
+			k := mkCase(c, i, kindMarks, pg)
 			c.Current(k)
 			for _, t := range pg.Tags {
 				c.Count(t)
